@@ -269,6 +269,188 @@ theorem C10_gen_access_none (d : PyVal) (fuel : Nat) :
   rw [runFunction_succ]
   simp [fnResult, Gen.Reward.fn_access_from_nested_dict, pyIs]
 
+
+/-! ### `RewardFunction.update` itself -/
+
+/-- the accumulation `total = 0.0; for (comp, weight): total += weight * comp.calculate(...)`, the first raising component ending it -/
+def leftFoldE : Val → List (Except Err Val × Val) → Except Err Val
+  | acc, [] => .ok acc
+  | acc, (r, w) :: rest =>
+    match r with
+    | .error e => .error e
+    | .ok v => leftFoldE (acc + w * v) rest
+
+/-- the model's loop is that accumulation over the components' own evaluations -/
+theorem updateCompsE_fst_eq_leftFoldE (s : SimState) (it : Item) (cur : Name → Val) (comps : List (Comp × Val)) :
+    ∀ acc, (updateCompsE s it cur acc comps).map (·.1) =
+      leftFoldE acc (comps.map (fun cw => ((calcCompE s it cur cw.1).map (·.1), cw.2))) := by
+  induction comps with
+  | nil => intro acc; rfl
+  | cons cw rest ih =>
+    obtain ⟨c, w⟩ := cw
+    intro acc
+    simp only [updateCompsE, List.map_cons, leftFoldE]
+    cases hc : calcCompE s it cur c with
+    | error e => rfl
+    | ok r =>
+      simp only [Except.map]
+      have := ih (acc + w * r.1)
+      cases hu : updateCompsE s it cur (acc + w * r.1) rest with
+      | error e => rw [hu] at this; simpa [Except.map] using this
+      | ok t => rw [hu] at this; simpa [Except.map] using this
+
+/-- the body of the `for` loop of the translated `update` -/
+def updLoopBody : Stmt :=
+  match Gen.Reward.fn_RewardFunction_update with
+  | .seq _ (.seq (.forIn _ _ b) _) => b
+  | _ => .pass
+
+/-- a `(component, weight)` entry of `self.reward_components` -/
+def encPair (p : PyVal × Val) : PyVal := .list [p.1, .num p.2]
+
+/-- one iteration: `total` becomes `total + weight * comp.calculate(...)`, or the component's exception ends the loop -/
+theorem update_iter (f : PyVal → Except Err Val) (env : Env) (hc : ∀ o, env.calcOf o = (f o).map .num) (acc : Val)
+    (ht : env.locals.lookup "total" = some (.num acc)) (p : PyVal × Val) :
+    exec updLoopBody { env with locals := ("comp_and_weight", encPair p) :: env.locals } =
+      match f p.1 with
+      | .error e => .error e
+      | .ok v => .ok ({ env with locals := ("total", .num (acc + p.2 * v)) :: ("weight", .num p.2) :: ("comp", p.1) ::
+                          ("comp_and_weight", encPair p) :: env.locals }, none) := by
+  obtain ⟨tok, w⟩ := p
+  have hne1 : ("total" == "comp_and_weight") = false := by decide
+  cases hf : f tok with
+  | error e =>
+    simp [updLoopBody, Gen.Reward.fn_RewardFunction_update, encPair, pyIndex, ht, hc, hf]
+  | ok v =>
+    simp [updLoopBody, Gen.Reward.fn_RewardFunction_update, encPair, pyIndex, ht, hc, hf, pyArith, PyVal.asNum, Rat.add_comm]
+
+theorem update_loop (f : PyVal → Except Err Val) (pairs : List (PyVal × Val)) :
+    ∀ (env : Env) (acc : Val), (∀ o, env.calcOf o = (f o).map .num) → env.locals.lookup "total" = some (.num acc) →
+      match leftFoldE acc (pairs.map (fun p => (f p.1, p.2))) with
+      | .error e => loopOver (fun env' => exec updLoopBody env') "comp_and_weight" (pairs.map encPair) env = .error e
+      | .ok a => ∃ env', loopOver (fun env' => exec updLoopBody env') "comp_and_weight" (pairs.map encPair) env = .ok (env', none) ∧
+          env'.locals.lookup "total" = some (.num a) ∧ env'.selfAttrs = env.selfAttrs := by
+  induction pairs with
+  | nil => intro env acc _ ht; exact ⟨env, rfl, ht, rfl⟩
+  | cons p rest ih =>
+    intro env acc hc ht
+    simp only [List.map_cons, leftFoldE, loopOver]
+    rw [update_iter f env hc acc ht p]
+    cases hf : f p.1 with
+    | error e => rfl
+    | ok v =>
+      simp only
+      have h := ih { env with locals := ("total", .num (acc + p.2 * v)) :: ("weight", .num p.2) :: ("comp", p.1) ::
+          ("comp_and_weight", encPair p) :: env.locals } (acc + p.2 * v) hc (by simp)
+      cases hl : leftFoldE (acc + p.2 * v) (rest.map (fun p => (f p.1, p.2))) with
+      | error e => rw [hl] at h; exact h
+      | ok a => rw [hl] at h; obtain ⟨env', h1, h2, h3⟩ := h; exact ⟨env', h1, h2, h3⟩
+
+/-- **`RewardFunction.update`, semantic tie.** The body of `update(self, state, last_action_response)` in rewards.py — translated
+statement by statement on every run: the `for` loop over `self.reward_components`, the two subscripts, `total += weight * …`, the
+assignment to `self.current_reward`, the `return` — interpreted for ANY list of (component object, weight) and ANY behaviour `f`
+of the components' `calculate` (a number or an exception each), returns (and stores in `self.current_reward`) exactly the left
+fold `((0 + w₁·c₁) + w₂·c₂) + …`, stopping at the first component that raises. With `updateCompsE_fst_eq_leftFoldE` this is the
+model's `updateCompsE`. (Replaces the text tie of `update`; nothing is assumed about what a component is.) -/
+theorem C10_gen_update (f : PyVal → Except Err Val) (cfun : PyVal → Except Err PyVal) (hc : ∀ o, cfun o = (f o).map .num)
+    (pairs : List (PyVal × Val)) (s : PyVal) (it : Item) (others : List (String × PyVal)) :
+    (runCalculate Gen.Reward.fn_RewardFunction_update
+      { state := s, item := it, config := [], reward := .none, calcOf := cfun,
+        selfAttrs := ("reward_components", .list (pairs.map encPair)) :: others }).map (·.value) =
+      leftFoldE 0 (pairs.map (fun p => (f p.1, p.2))) := by
+  have hloop := update_loop f pairs
+    { state := s, item := it, config := [], reward := .none, calcOf := cfun,
+      selfAttrs := ("reward_components", .list (pairs.map encPair)) :: others, locals := [("total", .num 0)] } 0
+    hc (by simp)
+  have hbody : Gen.Reward.fn_RewardFunction_update =
+      .seq (.assign (.var "total") (.const (.num 0)))
+        (.seq (.forIn "comp_and_weight" (.selfAttr "reward_components") updLoopBody)
+          (.seq (.assign (.selfAttr "current_reward") (.var "total")) (.ret (.selfAttr "current_reward")))) := by
+    simp [Gen.Reward.fn_RewardFunction_update, updLoopBody]
+  rw [hbody]
+  cases hl : leftFoldE 0 (pairs.map (fun p => (f p.1, p.2))) with
+  | error e =>
+    rw [hl] at hloop
+    simp only at hloop
+    simp [pyIterList, hloop]
+  | ok a =>
+    rw [hl] at hloop
+    simp only at hloop
+    obtain ⟨env', h1, h2, h3⟩ := hloop
+    simp [pyIterList, h1, h2]
+
+/-- **The plugin contract.** `RewardFunction.update` and the whole game-level development never look inside a component: for a
+component class defined OUTSIDE the package (registered through `AbstractReward.__init_subclass__`), whatever its `calculate`
+computes — any function `f` of the object, state and item, raising or not — the agent's step reward is the weighted left fold of
+the values it and its siblings return, in registration order, and an exception of the plugin ends `update` (and the step) with that
+exception. What C10 does NOT promise for a plugin: non-interference, sticky laws, the ground-truth statements — those are proved
+for the seven shipped classes from their translated bodies. -/
+theorem C10_plugin_contract (f : PyVal → Except Err Val) (pre post : List (PyVal × Val)) (plugin : PyVal) (w : Val) (s : PyVal) (it : Item) :
+    (runCalculate Gen.Reward.fn_RewardFunction_update
+      { state := s, item := it, config := [], reward := .none, calcOf := fun o => (f o).map .num,
+        selfAttrs := [("reward_components", .list ((pre ++ (plugin, w) :: post).map encPair))] }).map (·.value) =
+      leftFoldE 0 ((pre ++ (plugin, w) :: post).map (fun p => (f p.1, p.2))) :=
+  C10_gen_update f _ (fun _ => rfl) _ s it []
+
+/-- non-vacuity: two components and a plugin object in the middle that returns 5; the plugin raising ends the update -/
+example :
+    (leftFoldE 0 ([((.ok 1 : Except Err Val), (2 : Val)), (.ok 5, 1/2), (.ok (-1), 1)])).toOption = some (2 + 5/2 - 1) ∧
+    (match leftFoldE 0 ([((.ok 1 : Except Err Val), (2 : Val)), (.error .typeError, 1/2), (.ok (-1), 1)]) with
+      | .error .typeError => true | _ => false) = true := by
+  constructor <;> decide +kernel
+
+
+/-! ### `PrimaiteGame.update_agents` itself -/
+
+/-- **`update_agents`, semantic tie.** The loop of `PrimaiteGame.update_agents` in game.py — translated on every run into the list of
+its statements with their guards (`Gen.Reward.updateAgentsProgram`) — run on the agent `self.agents[agent_name]` of ANY game, state
+and agent name, is exactly the model's `updOneE`: `update_reward` then `save_reward_to_history`, both only when `step_counter > 0`,
+then `total_reward += current_reward` with the NEW reward; same exceptions (unknown agent, empty history, unknown shared name,
+raising component). Any reordering or regrouping of those statements that changes the result refutes this theorem; one that does
+not (e.g. moving `update_observation`) keeps it. (Replaces the text tie of `update_agents`.) -/
+theorem C10_gen_update_agents (s : SimState) (g : Game) (name : Name) :
+    updOneProg Gen.Reward.updateAgentsProgram s g name = updOneE s g name := by
+  unfold updOneProg updOneE
+  cases hl : g.agents.lookup name with
+  | none => rfl
+  | some a =>
+    simp only
+    by_cases hpos : g.stepCounter > 0
+    · simp only [hpos, decide_true, if_true, Gen.Reward.updateAgentsProgram, runOps, Bool.not_true, Bool.and_false,
+        Bool.false_eq_true, if_false]
+      cases hh : a.hist with
+      | nil => rfl
+      | cons e older =>
+        obtain ⟨it, rw'⟩ := e
+        simp only
+        by_cases hall : (sharedNames a.comps).all (fun v => decide (v ∈ agentKeys g.agents)) = true
+        · simp only [hall, if_true]
+          cases hu : updateCompsE s it (curOf g.agents) 0 a.comps with
+          | error e => rfl
+          | ok r => simp only [hh]
+        · simp only [hall, Bool.false_eq_true, if_false]
+    · simp only [hpos, decide_false, if_false, Gen.Reward.updateAgentsProgram, runOps, Bool.not_false, Bool.and_true,
+        Bool.and_self, if_true, Bool.false_and, Bool.false_eq_true]
+
+/-- … and the whole function: the loop over `_reward_calculation_order` -/
+theorem C10_gen_update_agents_loop (s : SimState) (g : Game) :
+    foldE (updOneProg Gen.Reward.updateAgentsProgram s) g g.order = updateAgentsE s g := by
+  unfold updateAgentsE
+  have : updOneProg Gen.Reward.updateAgentsProgram s = updOneE s := by
+    funext g' n; exact C10_gen_update_agents s g' n
+  rw [this]
+
+/-- why the order matters (own mutation M3, round 3): with `total_reward += current_reward` moved in front of `update_reward`
+the total lags one step behind — a different program, and not the model -/
+example :
+    let it : Item := { action := "x", request := .list [], status := "success" }
+    let a : Agent := { comps := [(.actionPenalty (-1) 0, 1)], current := 5, total := 10, hist := [(it, none)] }
+    let g : Game := { agents := [("a", a)], order := ["a"], stepCounter := 1 }
+    ((updOneProg [(false, .addCurrentToTotal), (true, .updateReward), (true, .saveRewardToHistory), (false, .updateObservation)]
+        (.dict []) g "a").toOption.bind (fun g' => g'.agents.lookup "a")).map (·.total) = some 15 ∧
+    ((updOneE (.dict []) g "a").toOption.bind (fun g' => g'.agents.lookup "a")).map (·.total) = some 9 := by
+  constructor <;> decide +kernel
+
 /-! ## 2. Non-interference: what a component's value can depend on -/
 
 /-- two history items agree on the fields a component reads -/
